@@ -35,6 +35,9 @@ CHECKS = {
  "C10": ("exploration", "reference GC predicate over (before, after) snapshots of real Store.Gc()",
    "6k/300k random stores (limits, expiry marks, tied timestamps) built through the real API; one real Gc() bracketed by the harness clock; survivors must be an unchanged subsequence, limit victims an oldest-prefix (ties by inequality), expired data gone and everything else kept; second pass must be a no-op; index agrees with slice.",
    "Data ages are >=0.5h away from every expiry threshold so the verdict is independent of when Gc sampled time.Now(); 'at most N' read literally.", "§4 C10"),
+ "C11": ("exploration", "Go race detector (exploration mode, reports parsed from its log) + conservation / scrape-log / porcupine linearizability checkers over a concurrent stress workload",
+   "9/160 fresh runs of a real Runtime with 3 programs fed 0.7-4k lines while a tight Store.Gc loop, six export loops (Prometheus, /json, /varz, /graphite, statsd, collectd) and, in half the runs, a comment-only reloader run concurrently under -race with GOMAXPROCS 2/4/16 and PRNG jitter at the VM line hook; measured overlaps (exports / GC passes begun during a VM line) must exceed a floor. Race reports with mtail frames are violations (de-duplicated by access pair); counters must equal the increments performed; per-path counter samples monotone and <= final; gauge samples must have been written; histograms untorn; 200/5000 porcupine histories (4 clients) on one datum against register and counter models.",
+   "The race detector sees only accesses this workload performs; schedules are provoked, not enumerated; reloads are comment-only so data must be carried over.", "§4 C11"),
  "C12": ("fault_enumeration", "fault injection at every export failure point + post-attempt lock/goroutine oracle (run under -race)",
    "Complete grid for stores up to 3x3 (thorough 4x4): Prometheus Write and /metrics with each kind of unrepresentable item at every (metric, label set); graphite/statsd/collectd with a writer failing at every k-th write (through the verif write hook) and real tcp/unix/udp peers closing early; /varz /graphite /json with the request cancelled before the first metric and at every response write, with and without a failing ResponseWriter. After each attempt TryLock on every metric, no goroutine parked in EmitLabelSets, and a write-locking update plus another export complete.",
    "The lock oracle is time-free; the leaked-goroutine verdict polls for 1s before deciding; the progress probe has a 20s watchdog.", "§4 C12"),
